@@ -2,7 +2,7 @@
    Universal statements over the line-by-line models of Edits.v. *)
 From Coq Require Import List ZArith.
 Import ListNotations.
-From V Require Import Valid.Hier Model.Graph Model.Edits Model.Edits2.
+From V Require Import Valid.Hier Model.Graph Model.Edits Model.Edits2 Model.Edits3.
 
 (* the successors that are neither in S nor the new block keep their order *)
 Theorem C14_remaining_successors_untouched :
@@ -66,6 +66,51 @@ Theorem C14_control_blocks_checker :
 Proof. exact cb_ok_sound. Qed.
 Print Assumptions C14_control_blocks_checker.
 
+(* control-block variant, for every graph, every P and S and every supply of fresh
+   assignment names: the new head has exactly the successors S and a table; a
+   predecessor keeps its arity, its back edges and every successor outside S in
+   place; every position that went into S now holds an assignment block of the
+   supply, which continues to the head and sets the control variable to a value
+   the table sends to the arc's original target; no assignment block is shared,
+   neither inside a predecessor (its successors stay distinct) nor between two
+   predecessors; every other block is untouched *)
+Theorem C14_control_blocks :
+  forall g new var preds Ss names cls g',
+  NoDup preds -> ~ In new preds -> NoDup names ->
+  (forall a, In a names -> efind g a = None /\ a <> new /\ ~ In a preds /\ ~ In a Ss) ->
+  (forall p b, In p preds -> efind g p = Some b -> NoDup (e_jt b) /\ forall a, In a names -> ~ In a (e_jt b)) ->
+  insert_cb g new var preds Ss names cls = Ok g' ->
+  exists tbl,
+    efind g' new = Some (mkE Ss [] (EBranch cls var tbl)) /\
+    (forall p, In p preds -> exists b b', efind g p = Some b /\ efind g' p = Some b' /\
+       length (e_jt b) = length (e_jt b') /\ e_be b' = e_be b /\ NoDup (e_jt b') /\
+       forall k s t', nth_error (e_jt b) k = Some s -> nth_error (e_jt b') k = Some t' ->
+         (~ In s Ss -> t' = s) /\
+         (In s Ss -> In t' names /\
+            exists i, efind g' t' = Some (mkE [new] [] (EAssign [(var, i)])) /\ zassoc i tbl = Some s)) /\
+    (forall p q b1 b2, In p preds -> In q preds -> p <> q -> efind g' p = Some b1 -> efind g' q = Some b2 ->
+       forall a, In a names -> In a (e_jt b1) -> ~ In a (e_jt b2)) /\
+    (forall x, x <> new -> ~ In x preds -> ~ In x names -> efind g' x = efind g x).
+Proof. exact insert_cb_reroutes. Qed.
+Print Assumptions C14_control_blocks.
+
+(* the same without asking the predecessors' successors to be distinct: every
+   position is unchanged or rerouted through an assignment block as above *)
+Theorem C14_control_blocks_any_targets :
+  forall g new var preds Ss names cls g',
+  NoDup preds -> ~ In new preds -> NoDup names ->
+  (forall a, In a names -> efind g a = None /\ a <> new /\ ~ In a preds /\ ~ In a Ss) ->
+  insert_cb g new var preds Ss names cls = Ok g' ->
+  exists tbl,
+    efind g' new = Some (mkE Ss [] (EBranch cls var tbl)) /\
+    (forall p, In p preds -> exists b b', efind g p = Some b /\ efind g' p = Some b' /\
+       length (e_jt b) = length (e_jt b') /\ e_be b' = e_be b /\
+       forall k s t', nth_error (e_jt b) k = Some s -> nth_error (e_jt b') k = Some t' ->
+                      ArcOk g' new var tbl s t') /\
+    (forall x, x <> new -> ~ In x preds -> ~ In x names -> efind g' x = efind g x).
+Proof. exact insert_cb_spec. Qed.
+Print Assumptions C14_control_blocks_any_targets.
+
 (* non-vacuity *)
 Local Open Scope Z_scope.
 Example C14_example :
@@ -75,3 +120,14 @@ Example C14_example :
   = Ok [(2, mkE [] [] (EPlain 0)); (3, mkE [] [] (EPlain 0)); (9, mkE [2; 3] [] (EPlain 4));
         (1, mkE [9] [] (EPlain 0))].
 Proof. vm_compute. repeat split; reflexivity. Qed.
+
+(* the hypotheses of C14_control_blocks are met and the call succeeds *)
+Example C14_control_blocks_example :
+  insert_cb [(1, mkE [3; 4] [] (EPlain 0)); (2, mkE [4; 5] [] (EPlain 0)); (3, mkE [] [] (EPlain 0));
+             (4, mkE [] [] (EPlain 0)); (5, mkE [] [] (EPlain 0))] 9 7 [1; 2] [3; 4] [20; 21; 22; 23] 6
+  = Ok [(3, mkE [] [] (EPlain 0)); (4, mkE [] [] (EPlain 0)); (5, mkE [] [] (EPlain 0));
+        (20, mkE [9] [] (EAssign [(7, 0)])); (21, mkE [9] [] (EAssign [(7, 1)]));
+        (1, mkE [20; 21] [] (EPlain 0)); (22, mkE [9] [] (EAssign [(7, 2)]));
+        (2, mkE [22; 5] [] (EPlain 0));
+        (9, mkE [3; 4] [] (EBranch 6 7 [(0, 3); (1, 4); (2, 4)]))].
+Proof. vm_compute. reflexivity. Qed.
